@@ -163,6 +163,18 @@ def beartype_descriptor_decorator_builtin_property(
     if descriptor_deleter is not None:
         descriptor_deleter = beartype_func(descriptor_deleter, **kwargs)
 
+    # If decorating all of these functions reduced to a noop (e.g., because
+    # these functions are unannotated, already decorated, or decorated under the
+    # no-time strategy "BeartypeStrategy.O0"), preserve this descriptor as is
+    # rather than needlessly replacing this descriptor by an equivalent new
+    # descriptor.
+    if (
+        descriptor_getter  is descriptor.fget and  # type: ignore[union-attr]
+        descriptor_setter  is descriptor.fset and  # type: ignore[union-attr]
+        descriptor_deleter is descriptor.fdel  # type: ignore[union-attr]
+    ):
+        return descriptor
+
     # Return a new property method descriptor decorating all of these functions,
     # implicitly destroying the prior descriptor.
     #
@@ -263,6 +275,13 @@ def beartype_descriptor_decorator_builtin_class_or_static_method(
     #     object to be callable, which the descriptor created and returned by
     #     the @property decorator is *NOT*).
     descriptor_wrappee_checked = beartype_object(descriptor_wrappee, **kwargs) # type: ignore[union-attr]
+
+    # If decorating this function reduced to a noop (e.g., because this function
+    # is unannotated, already decorated, or decorated under the no-time strategy
+    # "BeartypeStrategy.O0"), preserve this descriptor as is rather than
+    # needlessly replacing this descriptor by an equivalent new descriptor.
+    if descriptor_wrappee_checked is descriptor_wrappee:
+        return descriptor
 
     # Return a new class or static method descriptor decorating the pure-Python
     # unbound function wrapped by this descriptor with type-checking, implicitly
